@@ -252,6 +252,7 @@ def _drive_chunk(run, env, cfg, row, ref0, chunk, is_best, objs):
         td = E.reset(env, cfg, [row] * B)
     refs = [ref0.clone() for _ in range(B)]
     hist = [[] for _ in range(B)]
+    residue_rows = set()
     T = max(len(s) for s in chunk)
     t = 0
     while True:
@@ -284,7 +285,12 @@ def _drive_chunk(run, env, cfg, row, ref0, chunk, is_best, objs):
                 refs[r].apply(a)
                 run.state(name, tuple(hist[r]), a)
             else:
-                if not bool(done[r]):
+                if not bool(done[r]) and name == "sdvrp" and float(td["demand_with_depot"][r].max()) <= RR.tau(1.0):
+                    # float32 residue of a capacity-capped delivery (DESIGN 4): the environment asks for one
+                    # more visit to deliver ~3e-8; inside the band, so indeterminate - keep padding
+                    run.probe("sdvrp_float_residue")
+                    residue_rows.add(r)
+                elif not bool(done[r]):
                     run.violate(name, "complete_solution_not_done", f"feasible complete solution {sol} leaves the "
                                 "environment unfinished", constraint="not_done", solution=sol, cfg=cfg,
                                 instance=E.enc_row(row), source=run.plan["source"])
@@ -299,7 +305,7 @@ def _drive_chunk(run, env, cfg, row, ref0, chunk, is_best, objs):
             td = E.step(env, td, torch.tensor(acts))
         run.tick()
         t += 1
-        if t > T + 2:
+        if t > T + 6:
             raise HarnessError("chunk did not finish")
     run.probe("solutions_driven", B)
     if objs is not None and any(is_best):
@@ -307,7 +313,7 @@ def _drive_chunk(run, env, cfg, row, ref0, chunk, is_best, objs):
         with run.guard(name, "get_reward"):
             rew = torch.as_tensor(env.get_reward(td, actions)).reshape(-1)
         for r in range(B):
-            if is_best[r]:
+            if is_best[r] and r not in residue_rows:
                 got, want = float(rew[r]), objs[r]
                 if not abs(got - want) <= reward_tol(want, len(chunk[r])):
                     run.violate(name, "optimum_reward", f"brute-force optimum {want!r} is reported as {got!r}",
